@@ -325,3 +325,69 @@ B('c05b_class_value_stripped_before_dispatch', ['C05'], 'R05.e',
   (R, _BUILD_DEF, _BUILD_CLASS.replace("        return self._convert(value)\n", "        value = value.strip('/')\n        return self._convert(value)\n")))
 B('c05b_class_single_guard_wrong_branch', ['C05'], 'R05.e',
   (R, _BUILD_DEF, _BUILD_CLASS.replace("    def _one(self, value):\n        if not value and self.optional:\n", "    def _one(self, value):\n        if not value or self.optional:\n")))
+
+# ---- sixth batch: R05.g (how the joined list is built) and R05.h (what a match returns) ------------------------------------------
+_JOIN = "    full_pattern += sep.join(processed)\n"
+_TRIM = "    if mode != S_STRICT and not processed[-1]:\n        processed = processed[:-1]\n"
+_APPEND = "            processed.append(part)\n"
+_GLUE = "        processed[-1] += path_seg_pattern\n"
+_MP_STORE = "                ret[conv_name] = conv(groups[conv_name])\n"
+_CPP_HEAD = "def _compile_path_pattern(pattern, mode=S_REWRITE):\n    processed = []\n    var_converter_map = {}\n"
+_VCM_STORE = "        var_converter_map[name] = build_converter(cur_conv,\n                                                  multi=multi,\n                                                  optional=optional)\n"
+_FOR_PART = "    for part in pattern.split('/'):\n"
+_MATCH_KEYS = ("        ret = {}\n        match = self.regex.match(path)\n        if not match:\n            return None\n"
+               "        try:\n            for conv_name in self.converters:\n                convert = self.converters[conv_name]\n"
+               "                ret[conv_name] = convert(match.group(conv_name))\n        except (KeyError, TypeError, ValueError):\n"
+               "            return None\n        return ret\n")
+_MATCH_PAIRS = ("        match = self.regex.match(path)\n        if not match:\n            return None\n        groups = match.groupdict()\n"
+                "        try:\n            converted = dict([(conv_name, conv(groups[conv_name]))\n                              for conv_name, conv in self.converters.items()])\n"
+                "        except (KeyError, TypeError, ValueError):\n            return None\n        return converted\n")
+
+T('c05t_trim_by_pop', ['C05'], (R, _TRIM, "    if mode != S_STRICT and not processed[-1]:\n        processed.pop()\n"))
+T('c05t_trim_by_del_nested_tests', ['C05'], (R, _TRIM, "    if mode != S_STRICT:\n        if processed[-1] == '':\n            del processed[-1]\n"))
+T('c05t_join_of_trimmed_view', ['C05'],
+  (R, _TRIM, "    joined = processed\n    if mode != S_STRICT and not processed[-1]:\n        joined = processed[:-1]\n"), (R, _JOIN, "    full_pattern += sep.join(joined)\n"))
+T('c05t_join_of_slice_in_place', ['C05'],
+  (R, _TRIM + "    full_pattern += sep.join(processed)\n",
+      "    if mode != S_STRICT and not processed[-1]:\n        full_pattern += sep.join(processed[:-1])\n    else:\n        full_pattern += sep.join(processed)\n"))
+T('c05t_glue_written_out', ['C05'], (R, _GLUE, "        processed[-1] = processed[-1] + path_seg_pattern\n"))
+T('c05t_parts_named_first', ['C05'], (R, _FOR_PART, "    parts = pattern.split('/')\n    for part in parts:\n"))
+T('c05t_literal_under_is_none', ['C05'], (R, "        if not match:\n            processed.append(part)\n", "        if match is None:\n            processed.append(part)\n"))
+T('c05t_containers_by_constructor', ['C05'], (R, _CPP_HEAD, "def _compile_path_pattern(pattern, mode=S_REWRITE):\n    processed = list()\n    var_converter_map = dict()\n"))
+T('c05t_match_path_keys_and_group', ['C05', 'C08'], (R, _MATCH, _MATCH_KEYS))
+T('c05t_match_path_dict_of_pairs', ['C05', 'C08'], (R, _MATCH, _MATCH_PAIRS))
+
+B('c05b_join_drops_first_element', ['C05'], 'R05.g', (R, _JOIN, "    full_pattern += sep.join(processed[1:])\n"))
+B('c05b_literal_part_lowercased', ['C05'], 'R05.g', (R, _APPEND, "            processed.append(part.lower())\n"))
+B('c05b_empty_literal_part_skipped', ['C05'], 'R05.g', (R, _APPEND, "            if part:\n                processed.append(part)\n"))
+B('c05b_trim_also_in_strict_mode', ['C05'], 'R05.g', (R, _TRIM, "    if not processed[-1]:\n        processed = processed[:-1]\n"))
+B('c05b_trim_lost', ['C05'], 'R05.g', (R, _TRIM, ""))
+B('c05b_trim_whatever_the_last_element', ['C05'], 'R05.g', (R, _TRIM, "    if mode != S_STRICT:\n        processed = processed[:-1]\n"))
+B('c05b_pop_trim_only_in_strict', ['C05'], 'R05.g', (R, _TRIM, "    if mode == S_STRICT and not processed[-1]:\n        processed.pop()\n"))
+B('c05b_trim_guard_wrong_branch', ['C05'], 'R05.g', (R, _TRIM, "    if mode != S_STRICT and processed[-1]:\n        processed = processed[:-1]\n"))
+B('c05b_trimmed_view_not_joined', ['C05'], 'R05.g',
+  (R, _TRIM, "    joined = processed\n    if mode != S_STRICT and not processed[-1]:\n        joined = processed[:-1]\n"))
+B('c05b_trim_after_the_join', ['C05'], 'R05.g', (R, _TRIM, ""), (R, _JOIN, _JOIN + _TRIM))
+B('c05b_segment_replaces_the_element', ['C05'], 'R05.g', (R, _GLUE, "        processed[-1] = path_seg_pattern\n"))
+B('c05b_segment_appended_as_own_element', ['C05'], 'R05.g', (R, _GLUE, "        processed.append(path_seg_pattern)\n"))
+B('c05b_glue_written_out_drops_old', ['C05'], 'R05.g', (R, _GLUE, "        processed[-1] = processed[0] + path_seg_pattern\n"))
+B('c05b_converter_map_is_a_default_argument', ['C05'], 'R05.g',
+  (R, _CPP_HEAD, "def _compile_path_pattern(pattern, mode=S_REWRITE, var_converter_map={}):\n    processed = []\n"))
+B('c05b_segment_list_shared_by_all_calls', ['C05'], 'R05.g',
+  (R, _CPP_HEAD, "_PROCESSED = []\n\n\ndef _compile_path_pattern(pattern, mode=S_REWRITE):\n    processed = _PROCESSED\n    var_converter_map = {}\n"))
+B('c05b_converter_only_for_mandatory_bindings', ['C05'], 'R05.g',
+  (R, _VCM_STORE, "        if not optional:\n            var_converter_map[name] = build_converter(cur_conv, multi=multi, optional=optional)\n"))
+B('c05b_pattern_split_limited', ['C05'], 'R05.g', (R, _FOR_PART, "    for part in pattern.split('/', 2):\n"))
+B('c05b_parts_named_then_filtered', ['C05'], 'R05.g', (R, _FOR_PART, "    parts = [p for p in pattern.split('/') if p]\n    for part in parts:\n"))
+B('c05b_duplicate_test_skipped_for_operators', ['C05'], 'R05.g', (R, "        if name in var_converter_map:\n", "        if name in var_converter_map and not op:\n"))
+B('c05b_match_path_converts_whole_path', ['C05'], 'R05.h', (R, _MP_STORE, "                ret[conv_name] = conv(path)\n"))
+B('c05b_match_path_returns_raw_groups', ['C05'], 'R05.h', (R, "            return None\n        return ret\n", "            return None\n        return groups\n"))
+B('c05b_match_path_converts_twice', ['C05'], 'R05.h', (R, _MP_STORE, "                ret[conv_name] = conv(conv(groups[conv_name]))\n"))
+B('c05b_match_path_keyed_by_converter', ['C05'], 'R05.h', (R, _MP_STORE, "                ret[conv] = conv(groups[conv_name])\n"))
+B('c05b_comprehension_drops_absent_bindings', ['C05'], 'R05.h',
+  (R, _MATCH, _MATCH_COMP.replace("self.converters.items()}\n", "self.converters.items() if captured[binding_name]}\n")))
+B('c05b_comprehension_reads_other_group', ['C05'], 'R05.h', (R, _MATCH, _MATCH_COMP.replace("convert(captured[binding_name])", "convert(captured.get('name'))")))
+B('c05b_keys_loop_wrong_converter', ['C05'], 'R05.h', (R, _MATCH, _MATCH_KEYS.replace("convert = self.converters[conv_name]\n", "convert = self.converters.get(path, unicode)\n")))
+B('c05b_pairs_result_not_returned', ['C05'], 'R05.h', (R, _MATCH, _MATCH_PAIRS.replace("        return converted\n", "        return groups\n")))
+B('c05b_loop_skips_empty_captures', ['C05'], 'R05.h',
+  (R, _MP_STORE, "                if groups[conv_name]:\n                    ret[conv_name] = conv(groups[conv_name])\n"))
